@@ -203,7 +203,12 @@ func SyncNamespaces(remote models.Client, local *models.LocalClient, key string)
 // Manager contains namespace manager and user manager
 type Manager struct {
 	reloadPrepared sync2.AtomicBool
-	switchIndex    util.BoolIndex
+	// reloadMu serialises ReloadNamespacePrepare, ReloadNamespaceCommit and DeleteNamespace:
+	// all three rebuild the inactive generation from the active one.
+	reloadMu sync.Mutex
+	// preparedName is the namespace the inactive generation was prepared for (valid while reloadPrepared is set)
+	preparedName string
+	switchIndex  util.BoolIndex
 	namespaces     [2]*NamespaceManager
 	users          [2]*UserManager
 	statistics     *StatisticManager
@@ -260,6 +265,9 @@ func (m *Manager) Close() {
 
 // ReloadNamespacePrepare prepare commit
 func (m *Manager) ReloadNamespacePrepare(namespaceConfig *models.Namespace) error {
+	m.reloadMu.Lock()
+	defer m.reloadMu.Unlock()
+
 	name := namespaceConfig.Name
 	current, other, _ := m.switchIndex.Get()
 	// reload namespace prepare
@@ -289,6 +297,9 @@ func (m *Manager) ReloadNamespacePrepare(namespaceConfig *models.Namespace) erro
 	if _, ok := m.statistics.SQLResponsePercentile[name]; !ok {
 		m.statistics.SQLResponsePercentile[name] = NewSQLResponse(name)
 	}
+	// the inactive generation now holds the active one plus this namespace only:
+	// an earlier prepare of another namespace is superseded and must not be committed
+	m.preparedName = name
 	m.reloadPrepared.Set(true)
 
 	return nil
@@ -296,11 +307,16 @@ func (m *Manager) ReloadNamespacePrepare(namespaceConfig *models.Namespace) erro
 
 // ReloadNamespaceCommit commit config
 func (m *Manager) ReloadNamespaceCommit(name string) error {
-	if !m.reloadPrepared.CompareAndSwap(true, false) {
+	m.reloadMu.Lock()
+	defer m.reloadMu.Unlock()
+
+	// only the namespace the inactive generation was prepared for can be committed
+	if !m.reloadPrepared.Get() || m.preparedName != name {
 		err := errors.ErrNamespaceNotPrepared
 		log.Warn("commit namespace error, namespace: %s, err: %v", name, err)
 		return err
 	}
+	m.reloadPrepared.Set(false)
 
 	current, _, index := m.switchIndex.Get()
 
@@ -320,6 +336,9 @@ func (m *Manager) ReloadNamespaceCommit(name string) error {
 
 // DeleteNamespace delete namespace
 func (m *Manager) DeleteNamespace(name string) error {
+	m.reloadMu.Lock()
+	defer m.reloadMu.Unlock()
+
 	current, other, index := m.switchIndex.Get()
 
 	// idempotent delete
@@ -339,6 +358,10 @@ func (m *Manager) DeleteNamespace(name string) error {
 	newUserManager := CloneUserManager(currentUserManager)
 	newUserManager.ClearNamespaceUsers(name)
 	m.users[other] = newUserManager
+
+	// a prepared generation has just been overwritten, and the generation it was copied
+	// from is no longer the active one: it must be prepared again before it can be committed
+	m.reloadPrepared.Set(false)
 
 	// switch namespace manager
 	m.switchIndex.Set(!index)
